@@ -88,7 +88,7 @@ var psiwSections = []psiwSection{
 	{name: "PsiWriters",
 		abstractW: []string{"writeDescriptorsWithLength"},
 		abstractP: []string{"calcDescriptorsLength"},
-		entries: append([]psiwEntry{{"calcPMTSectionLength", "pure"}, {"calcPSISectionLength", "purem"}},
+		entries: append([]psiwEntry{{"calcPMTSectionLength", "pure"}, {"calcPMTProgramInfoLength", "pure"}, {"calcPSISectionLength", "purem"}},
 			psiwWriters("writePATSection", "writePMTSection", "writePSISectionSyntaxHeader", "writePSISectionSyntaxData",
 				"writePSISectionSyntax", "writePSISection", "writePSIData")...)},
 	{name: "DescriptorLoop",
